@@ -81,6 +81,7 @@ def run(res, tier, seed):
     for c in cases[:2] + cases[-2:]:
         res.sample({'query': qgen.render_query(c['q'], 'py'), 'A': c['A'], 'B': c['B']})
     engine_corr.run_cases(res, 'C02', cases, 'py', rnd=random.Random(seed + 6))
+    engine_corr.js_leg(res, 'C02', cases, rnd=random.Random(seed + 106))
     # metamorphic oracle on the implementation alone: bound = prefix, DESC = reverse
     import common
     import copy
